@@ -1,7 +1,7 @@
 /*VERIF
 { "tu": "src/queue.c", "enforce": "_dispatch_workloop_invoke2", "props": ["C03", "C01"], "seq": true, "plain": true, "timeout": 600, "cases": 3,
   "bounded": { "unwind": 8, "what": "the work loop's buckets hold at most 2 items in the QoS-4 bucket and 1 item in the QoS-2 bucket (3 work items in all); no push while the drain runs except that ONE invoked item may raise the state word's max-QoS and set DIRTY (what a concurrent push does to the state word); case k = position of a sync waiter (0 none, 1 first item of the high bucket, 2 the item of the low bucket)" },
-  "cbmc_flags": ["--sat-solver", "cadical", "--slice-formula", "--unwindset", "_dispatch_workloop_invoke2.0:7,_dispatch_workloop_invoke2.1:3,_dispatch_workloop_invoke2.2:7,_dispatch_workloop_try_lower_max_qos.0:2"], "tier": "thorough",
+  "cbmc_flags": ["--sat-solver", "cadical", "--slice-formula", "--unwindset", "_dispatch_workloop_invoke2.0:7,_dispatch_workloop_invoke2.1:3,_dispatch_workloop_invoke2.2:7,_dispatch_workloop_try_lower_max_qos.0:2"],
   "assumes": ["BOUNDED stand-in: list lengths and the number of drain rounds are bounded as stated (real MPSC lists in memory, no summary nodes)"],
   "stub_note": "_dispatch_continuation_pop_inline (records the invocation order and the current queue; may raise max-QoS / set DIRTY), _dispatch_return_to_kernel: stubs" }
 VERIF*/
